@@ -10,7 +10,7 @@ def check(tier, seed):
     if tier == "thorough":
         guards += [("contracts.bd_guards", "unit_h0_guards", {"nb": 3, "hermitian": False, "timeout_ms": t}), ("contracts.bd_guards", "unit_h0_guards", {"nb": 1, "hermitian": True, "timeout_ms": t})]
     guards += [("contracts.bd_guards", "unit_check_biorthonormality", {"nsub": n, "timeout_ms": t}) for n in (1, 2, 3)]
-    guards += [("contracts.bd_guards", "unit_normalize_subspaces", {"timeout_ms": t})]
+    guards += [("contracts.bd_guards", "unit_normalize_subspaces", {"timeout_ms": t}), ("contracts.bd_guards", "unit_preprocess_sylvester", {"timeout_ms": t})]
     from .format_props import specs_linalg_misc, specs_keys
     d.add_units(fold_canaries(run_units(specs_solver(tier) + specs_masks(tier) + guards + specs_keys(tier) + specs_linalg_misc(tier))))
     d.assumptions += [
